@@ -196,7 +196,7 @@ func VerifC08Siblings() {
 		case 3:
 			parent.GetBlockID(Fact{Predicate{Name: sc.name, IDs: []Term{Integer(7)}}})
 		case 4:
-			if az, err := NewVerifier(parent); err == nil {
+			if az, err := NewVerifier(parent, gPatient); err == nil {
 				az.AddFact(Fact{Predicate{Name: sc.name, IDs: []Term{Integer(9)}}})
 				az.AddPolicy(DefaultAllowPolicy)
 				az.Authorize()
